@@ -27,6 +27,9 @@ HARMLESS_PROPS = {
     "harmless_plot": ["C03", "C05", "C11", "C16", "C18", "C19"],
     "harmless_plot2": ["C03", "C05", "C11", "C19"],
     "harmless_io_core2": ["C01", "C04", "C13", "C02", "C09", "C16"],
+    "harmless_core3": ["C02", "C06", "C07", "C08", "C09", "C10", "C17", "C19", "C20"],
+    "harmless_io3": ["C01", "C04", "C12", "C13", "C14", "C15"],
+    "harmless_plot3": ["C03", "C05", "C11", "C16", "C18", "C19"],
 }
 
 
